@@ -369,6 +369,77 @@ theorem foldl_pair_set {β γ : Type} (g : Nat → β → β) (hacc : γ → β 
     rw [if_neg h1] at this
     rw [this]
 
+/-! ### shape-independent closing steps (T5)
+
+The lemmas and tactics below let a proof state the *semantic* loop body / condition once (over the model's
+primitives) and tie the generated one to it by congruence + case analysis + linear arithmetic, so that a
+behaviour-preserving rewrite of the Go source (swapped arms with a negated guard, De Morgan, an arithmetically
+equal index expression, a hoisted temporary) re-proves unchanged. -/
+
+/-- congruence of `>>=` in both arguments -/
+theorem bind_congr2 {γ δ : Type} {x x' : R γ} {f f' : γ → R δ} (hx : x = x') (hf : ∀ a, f a = f' a) :
+    x >>= f = x' >>= f' := by
+  subst hx
+  exact bind_congr hf
+
+/-- a range loop only sees its body at the indexes of the slice -/
+theorem forRangeAux_congr {β σ : Type} (body body' : Int → β → σ → R σ) : ∀ (xs : List β) (k : Nat) (s : σ),
+    (∀ (j : Nat) (x : β) (s : σ), k ≤ j → j < k + xs.length → body (j : Int) x s = body' (j : Int) x s) →
+    Go.forRangeAux body (k : Int) xs s = Go.forRangeAux body' (k : Int) xs s := by
+  intro xs
+  induction xs with
+  | nil => intro k s _; rfl
+  | cons x xs ih =>
+    intro k s h
+    rw [Go.forRangeAux, Go.forRangeAux, h k x s (Nat.le_refl _) (by simp)]
+    refine bind_congr (m := R) fun r => ?_
+    have := ih (k + 1) r (fun j y s' h1 h2 => h j y s' (by omega) (by simp; omega))
+    simpa using this
+
+theorem forRangeM_congr {β σ : Type} (data : List β) (body body' : Int → β → σ → R σ) (s : σ)
+    (h : ∀ (k : Nat) (x : β) (s : σ), k < data.length → body (k : Int) x s = body' (k : Int) x s) :
+    Go.forRangeM data body s = Go.forRangeM data body' s := by
+  have := forRangeAux_congr body body' data 0 s (fun j x s' _ h2 => h j x s' (by simpa using h2))
+  simpa [Go.forRangeM] using this
+
+theorem forRangeCtlAux_congr {β σ ρ : Type} (body body' : Int → β → σ → R (σ × Go.Ctl ρ)) :
+    ∀ (xs : List β) (k : Nat) (s : σ),
+    (∀ (j : Nat) (x : β) (s : σ), k ≤ j → j < k + xs.length → body (j : Int) x s = body' (j : Int) x s) →
+    Go.forRangeCtlAux body (k : Int) xs s = Go.forRangeCtlAux body' (k : Int) xs s := by
+  intro xs
+  induction xs with
+  | nil => intro k s _; rfl
+  | cons x xs ih =>
+    intro k s h
+    rw [Go.forRangeCtlAux, Go.forRangeCtlAux, h k x s (Nat.le_refl _) (by simp)]
+    refine bind_congr (m := R) fun r => ?_
+    have := ih (k + 1) r.1 (fun j y s' h1 h2 => h j y s' (by omega) (by simp; omega))
+    split <;> first | rfl | simpa using this
+
+/-- equality of two loop-free monadic terms that differ in arithmetic sub-terms only: congruence down to the
+integer (or list) arguments, each closed by `rfl` / `omega` -/
+macro "go_cong" : tactic => `(tactic|
+  repeat' (first
+    | rfl
+    | omega
+    | (refine bind_congr2 ?_ (fun _ => ?_))
+    | (refine congrArg (pure : _ → R _) ?_)
+    | (refine Prod.ext ?_ ?_)
+    | (funext _)
+    | (congr 1)))
+
+/-- split every `if`/`match` on both sides; contradictory cases by arithmetic, the others by congruence -/
+macro "go_close'" : tactic => `(tactic|
+  ((repeat' split) <;> (first | rfl | omega | (go_cong; done) | (simp_all; done) | grind [List.isEmpty_iff])))
+
+/-- decide the guards of both sides from hypotheses given in both polarities (`h : a ≤ b`, `h' : ¬ b < a`), so that a
+negated or De-Morganed guard is decided as well -/
+macro "go_guards" "[" hs:Lean.Parser.Tactic.simpLemma,* "]" : tactic => `(tactic|
+  simp only [$hs,*, ↓reduceIte, not_true_eq_false, not_false_eq_true, true_and, and_true, false_and, and_false,
+    true_or, or_true, false_or, or_false, ge_iff_le, gt_iff_lt, ne_eq, Decidable.not_not, Bool.not_eq_true, Bool.not_eq_true',
+    Bool.not_eq_false, Bool.not_eq_false', Bool.not_true, Bool.not_false, Bool.true_eq_false, Bool.false_eq_true,
+    decide_true, decide_false, if_true, if_false, pure_bind])
+
 theorem map_range_getD {β : Type} (l : List β) (d : β) : (List.range l.length).map (fun j => l.getD j d) = l := by
   apply List.ext_getElem
   · simp
